@@ -470,6 +470,176 @@ theorem WF_removeLevel (segs : List String) (pre : List String) (l : Level) (h :
           · right; intro hnil; exact hp ⟨h0, hnil⟩
           · left; omega
 
+/-! ### `Len`: the size counter equals the number of referenced nodes -/
+
+theorem Node.live_eq (n : Node) : n.live = (if n.refs > 0 then 1 else 0) + liveLevel n.kids := by
+  cases n with | mk r p k => simp [Node.live]
+
+@[simp] theorem liveLevel_nil : liveLevel [] = 0 := by simp [liveLevel]
+@[simp] theorem liveLevel_cons (k : String) (n : Node) (rest : Level) :
+    liveLevel ((k, n) :: rest) = n.live + liveLevel rest := by simp [liveLevel]
+
+theorem liveLevel_setKid (k : String) (N : Node) (l : Level) :
+    liveLevel (setKid k N l) + (match lookup k l with | some n => n.live | none => 0) =
+      liveLevel l + N.live := by
+  induction l with
+  | nil => simp [setKid]
+  | cons e rest ih =>
+    obtain ⟨k₀, n₀⟩ := e
+    by_cases h0 : k₀ = k
+    · subst h0; simp [setKid, lookup]; omega
+    · simp only [setKid, h0, if_false, lookup, liveLevel_cons]; omega
+
+theorem eraseKid_of_not_mem {k : String} {l : Level} (h : k ∉ l.map Prod.fst) : eraseKid k l = l := by
+  induction l with
+  | nil => rfl
+  | cons e rest ih =>
+    obtain ⟨k₀, n₀⟩ := e
+    simp only [List.map_cons, List.mem_cons, not_or] at h
+    have h0 : ¬ k₀ = k := fun hh => h.1 hh.symm
+    simp [eraseKid, h0, ih h.2]
+
+theorem liveLevel_eraseKid {k : String} {n : Node} {l : Level} (hn : (l.map Prod.fst).Nodup)
+    (hl : lookup k l = some n) : liveLevel (eraseKid k l) + n.live = liveLevel l := by
+  induction l with
+  | nil => simp [lookup] at hl
+  | cons e rest ih =>
+    obtain ⟨k₀, n₀⟩ := e
+    simp only [List.map_cons, List.nodup_cons] at hn
+    by_cases h0 : k₀ = k
+    · subst h0
+      simp [lookup] at hl; subst hl
+      simp only [eraseKid, if_true, liveLevel_cons]
+      rw [eraseKid_of_not_mem hn.1]; omega
+    · simp only [lookup, h0, if_false] at hl
+      simp only [eraseKid, h0, if_false, liveLevel_cons]
+      have := ih hn.2 hl; omega
+
+theorem live_add_last (s pat : String) (l : Level) (o : Option Node) (ho : lookup s l = o) :
+    liveLevel (setKid s (.mk ((o.getD Node.fresh).refs + 1) pat (o.getD Node.fresh).kids) l) =
+      liveLevel l + (if ((o.getD Node.fresh).refs + 1 == 1) = true then 1 else 0) := by
+  have h := liveLevel_setKid s (.mk ((o.getD Node.fresh).refs + 1) pat (o.getD Node.fresh).kids) l
+  rw [ho] at h
+  cases o with
+  | none => simp [Node.live_eq] at h ⊢; omega
+  | some n =>
+    simp only [Option.getD_some, Node.live_eq n, Node.live_eq (Node.mk _ _ _), Node.refs_mk, Node.kids_mk] at h ⊢
+    by_cases hr : n.refs = 0
+    · simp [hr] at h ⊢; omega
+    · have : n.refs > 0 := by omega
+      simp [this, hr] at h ⊢; omega
+
+theorem live_add_inner (s : String) (l : Level) (o : Option Node) (ho : lookup s l = o) (k' : Level) (b : Bool)
+    (hk : liveLevel k' = liveLevel (o.getD Node.fresh).kids + (if b = true then 1 else 0)) :
+    liveLevel (setKid s (.mk (o.getD Node.fresh).refs (o.getD Node.fresh).pat k') l) =
+      liveLevel l + (if b = true then 1 else 0) := by
+  have h := liveLevel_setKid s (.mk (o.getD Node.fresh).refs (o.getD Node.fresh).pat k') l
+  rw [ho] at h
+  cases o with
+  | none =>
+    simp only [Option.getD_none, Node.live_eq (Node.mk _ _ _), Node.refs_mk, Node.kids_mk,
+      Node.refs_fresh, Node.kids_fresh, Node.pat_fresh] at h hk ⊢
+    simp at h hk
+    omega
+  | some n =>
+    simp only [Option.getD_some, Node.live_eq n, Node.live_eq (Node.mk _ _ _), Node.refs_mk, Node.kids_mk] at h hk ⊢
+    by_cases hr : n.refs > 0 <;> simp [hr] at h hk ⊢ <;> omega
+
+theorem liveLevel_addLevel (pat : String) (segs : List String) (hs : segs ≠ []) (l : Level) :
+    liveLevel (addLevel pat segs l).1 = liveLevel l + (if (addLevel pat segs l).2 = true then 1 else 0) := by
+  induction segs generalizing l with
+  | nil => exact absurd rfl hs
+  | cons s rest ih =>
+    cases rest with
+    | nil => simp only [addLevel]; exact live_add_last s pat l _ rfl
+    | cons t rest' =>
+      simp only [addLevel]
+      exact live_add_inner s l _ rfl _ _ (ih (by simp) _)
+
+theorem live_rem_last (s : String) (pre : List String) (l : Level) (hw : WF pre l) (o : Option Node)
+    (ho : lookup s l = o) :
+    liveLevel (match o with
+      | none => (l, false)
+      | some n =>
+        if n.refs = 0 then (l, false)
+        else if n.refs - 1 > 0 then (setKid s (.mk (n.refs - 1) n.pat n.kids) l, false)
+        else if n.kids = [] then (eraseKid s l, true)
+        else (setKid s (.mk 0 "" n.kids) l, true)).1 +
+      (if (match o with
+      | none => (l, false)
+      | some n =>
+        if n.refs = 0 then (l, false)
+        else if n.refs - 1 > 0 then (setKid s (.mk (n.refs - 1) n.pat n.kids) l, false)
+        else if n.kids = [] then (eraseKid s l, true)
+        else (setKid s (.mk 0 "" n.kids) l, true)).2 = true then 1 else 0) = liveLevel l := by
+  cases o with
+  | none => simp
+  | some n =>
+    simp only
+    split
+    · simp
+    · rename_i h0
+      split
+      · rename_i h1
+        have h := liveLevel_setKid s (.mk (n.refs - 1) n.pat n.kids) l
+        rw [ho] at h
+        simp only [Node.live_eq n, Node.live_eq (Node.mk _ _ _), Node.refs_mk, Node.kids_mk] at h
+        have : n.refs > 0 := by omega
+        simp [this, h1] at h ⊢; omega
+      · rename_i h1
+        split
+        · rename_i hk
+          have h := liveLevel_eraseKid hw.nodup' ho
+          rw [Node.live_eq n, hk] at h
+          have : n.refs > 0 := by omega
+          simp [this] at h ⊢; omega
+        · have h := liveLevel_setKid s (.mk 0 "" n.kids) l
+          rw [ho] at h
+          simp only [Node.live_eq n, Node.live_eq (Node.mk _ _ _), Node.refs_mk, Node.kids_mk] at h
+          have : n.refs > 0 := by omega
+          simp [this] at h ⊢; omega
+
+theorem live_rem_inner (s : String) (pre : List String) (l : Level) (hw : WF pre l) (o : Option Node)
+    (ho : lookup s l = o) (f : Node → Level × Bool)
+    (hk : ∀ n, o = some n → liveLevel (f n).1 + (if (f n).2 = true then 1 else 0) = liveLevel n.kids) :
+    liveLevel (match o with
+      | none => (l, false)
+      | some n => if n.refs = 0 ∧ (f n).1 = [] then (eraseKid s l, (f n).2)
+                  else (setKid s (.mk n.refs n.pat (f n).1) l, (f n).2)).1 +
+      (if (match o with
+      | none => (l, false)
+      | some n => if n.refs = 0 ∧ (f n).1 = [] then (eraseKid s l, (f n).2)
+                  else (setKid s (.mk n.refs n.pat (f n).1) l, (f n).2)).2 = true then 1 else 0) = liveLevel l := by
+  cases o with
+  | none => simp
+  | some n =>
+    have hk' := hk n rfl
+    simp only
+    split
+    · rename_i hp
+      have h := liveLevel_eraseKid hw.nodup' ho
+      rw [Node.live_eq n] at h
+      rw [hp.2] at hk'
+      simp [hp.1] at h hk' ⊢
+      omega
+    · have h := liveLevel_setKid s (.mk n.refs n.pat (f n).1) l
+      rw [ho] at h
+      simp only [Node.live_eq n, Node.live_eq (Node.mk _ _ _), Node.refs_mk, Node.kids_mk] at h
+      simp only
+      by_cases hr : n.refs > 0 <;> simp [hr] at h ⊢ <;> omega
+
+theorem liveLevel_removeLevel (segs : List String) (pre : List String) (l : Level) (hw : WF pre l) :
+    liveLevel (removeLevel segs l).1 + (if (removeLevel segs l).2 = true then 1 else 0) = liveLevel l := by
+  induction segs generalizing pre l with
+  | nil => simp [removeLevel]
+  | cons s rest ih =>
+    cases rest with
+    | nil => simp only [removeLevel]; exact live_rem_last s pre l hw _ rfl
+    | cons t rest' =>
+      simp only [removeLevel]
+      exact live_rem_inner s pre l hw _ rfl (fun n => removeLevel (t :: rest') n.kids)
+        (fun n hn => ih (pre ++ [s]) n.kids (hw.sub' (mem_of_lookup hn)))
+
 /-! ### `splitTopic` -/
 
 theorem splitN_ne_nil (k : Nat) (cs acc : List Char) : splitN k cs acc ≠ [] := by
@@ -1287,5 +1457,20 @@ theorem clean_of_no_reg {s : NodeSt} (ha : s.Agree) (hn : s.NoEmpty)
     exact hw _ sp p hreg
   simp only [NodeSt.Clean, NodeSt.cleanB, Bool.and_eq_true, List.isEmpty_iff, List.all_eq_true]
   exact ⟨⟨h2, h1⟩, fun st hst => by simp [h3 st hst]⟩
+
+theorem Trie.Reachable.size_eq {t : Trie} (h : t.Reachable) : t.size = liveLevel t.root := by
+  induction h with
+  | empty => simp [Trie.empty]
+  | add p _ ih =>
+    rename_i t' ht'
+    simp only [Trie.add]
+    rw [liveLevel_addLevel p _ (splitTopic_ne_nil p)]
+    split <;> simp_all
+  | remove p ht' ih =>
+    rename_i t'
+    simp only [Trie.remove]
+    have := liveLevel_removeLevel (splitTopic p) [] t'.root ht'.wf
+    split <;> simp_all <;> omega
+
 
 end AnySync.PubSub
